@@ -121,7 +121,25 @@ def c08():
         ok, d = abs(v - 123456789.35) < 1e-6, repr(v)
     except Exception as e:
         ok, d = False, repr(e)
-    return [('D14', dict(ncoeff=1), ok, d)]
+    out = [('D14', dict(ncoeff=1), ok, d)]
+    # D27: the same instant given in TT / TAI is evaluated from the entry whose span contains it (two entries with a gap between them)
+    two = ('PSRX      1-Jan-20  000000.00   58849.00000000000            10.000000 -0.000 -6.000\n'
+           '   100000000.250000      2.000000000000    0   60    3  1400.000\n'
+           '  1.00000000000000000D-01  2.00000000000000000D-03  3.00000000000000000D-06\n'
+           'PSRX      1-Jan-20  000000.00   58849.50000000000            10.000000 -0.000 -6.000\n'
+           '   100086400.750000      2.000000000000    0   60    3  1400.000\n'
+           ' -1.00000000000000000D-01  5.00000000000000000D-03 -3.00000000000000000D-06\n')
+    try:
+        p = pb.PhasePredictor.from_polyco(io.StringIO(two))
+        t = Time(58849.0, format='mjd', precision=9) + 29.5 * u.min          # 30 s before the end of the first span
+        for sc in ('tt', 'tai'):
+            a, b = p(t), p(getattr(t, sc))
+            dv = float((b - a).value)
+            fa, fb = p.f0(t).value, p.f0(getattr(t, sc)).value
+            out.append(('D27', dict(scale=sc, t='tmid + 29.5 min'), abs(dv) < 1e-8 and abs(fa - fb) < 1e-12, f'phase difference {dv!r}, f0 {fa!r} vs {fb!r}'))
+    except Exception as e:
+        out.append(('D27', dict(scale='tt/tai'), False, repr(e)))
+    return out
 
 
 def c10():
